@@ -724,6 +724,8 @@ func (t *Term) leafSMT() (string, bool) {
 
 // Printer emits a set of terms as a DAG: shared non-leaf nodes of known sort become define-funs.
 type Printer struct {
+	AbsFP   bool              // print floating-point operations as uninterpreted functions
+	ufDecls map[string]string // uf name -> declaration
 	refs  map[*Term]int
 	names map[*Term]string
 	defs  []string
@@ -779,7 +781,11 @@ func (p *Printer) Emit(t *Term) string {
 		return opSMT(t)
 	}
 	sb.WriteByte('(')
-	sb.WriteString(opSMT(t))
+	if p.AbsFP && isFPOp(t) {
+		sb.WriteString(p.ufName(t))
+	} else {
+		sb.WriteString(opSMT(t))
+	}
 	for _, a := range t.Args {
 		sb.WriteByte(' ')
 		sb.WriteString(p.Emit(a))
@@ -839,4 +845,49 @@ func FreeSyms(t *Term, acc map[*Term]bool, seen map[*Term]bool) {
 	for _, a := range t.Args {
 		FreeSyms(a, acc, seen)
 	}
+}
+
+func isFPOp(t *Term) bool {
+	if strings.HasPrefix(t.Op, "fp.") || t.Op == "gomin" || t.Op == "gomax" || strings.HasPrefix(t.Op, "(_ to_fp") || t.Op == "tenth" {
+		return true
+	}
+	return false
+}
+
+func (p *Printer) ufName(t *Term) string {
+	name := "uf!" + strings.Map(func(r rune) rune {
+		if r >= 'a' && r <= 'z' || r >= 'A' && r <= 'Z' || r >= '0' && r <= '9' {
+			return r
+		}
+		return '_'
+	}, t.Op)
+	var as []string
+	for _, a := range t.Args {
+		as = append(as, sortSMT(a.Sort))
+		name += "_" + strings.Map(func(r rune) rune {
+			if r >= 'a' && r <= 'z' || r >= 'A' && r <= 'Z' || r >= '0' && r <= '9' {
+				return r
+			}
+			return -1
+		}, a.Sort)
+	}
+	if p.ufDecls == nil {
+		p.ufDecls = map[string]string{}
+	}
+	p.ufDecls[name] = fmt.Sprintf("(declare-fun %s (%s) %s)", name, strings.Join(as, " "), sortSMT(t.Sort))
+	return name
+}
+
+func (p *Printer) UFDecls() string {
+	var ns []string
+	for n := range p.ufDecls {
+		ns = append(ns, n)
+	}
+	sort.Strings(ns)
+	var sb strings.Builder
+	for _, n := range ns {
+		sb.WriteString(p.ufDecls[n])
+		sb.WriteByte('\n')
+	}
+	return sb.String()
 }
